@@ -15,6 +15,11 @@
                                                    GetIteratorForType); since commit d2cf257 a
                                                    failed build removes its placeholder
      iterator/iterator_root.go                     Iterate (recursion over the value)
+     iterator/session.go, iterator/iterators.go    GetIteratorForType over a GRAPH of types: iterators of
+                                                   composite types capture what the lookups of their
+                                                   children returned (for a type still being generated:
+                                                   its placeholder); what the failure path does with the
+                                                   placeholder is a parameter (fail_policy)
      cbe/decoder.go Decode, runMainDecodeLoop      main decode loop with its byte-consumption
                                                    measure, on a fragment of the type codes
    Not modelled: the chunk loop of decodeArrayChunks, the CTE parser, typed destinations,
@@ -562,6 +567,236 @@ Definition unsupported_value : value_desc := {| v_type := 7; v_supported := fals
 Definition cyclic_value : value_desc := {| v_type := 7; v_supported := true; v_cyclic := true |}.
 
 (* ------------------------------------------------------------------------- *)
+(** * Iterator session over a graph of types (marshaling) *)
+
+(* iterator/session.go GetIteratorForType + getDefaultIteratorForType, iterator/iterators.go
+   newPointerIterator / newSliceOrArrayAsListIterator / newMapIterator / newStructIterator /
+   iterateInterface, at the level of WHICH iterator is looked up WHEN and what a lookup returns.
+   [cache_get] above sees one type at a time; here a type has children, the iterator of a
+   composite type CAPTURES what the lookups of its children returned while it was generated,
+   and for a type that is still being generated (a cycle) that is the PLACEHOLDER
+       func(ctx, v) { wg.Wait(); iterator(ctx, v) }
+   of that type.  When the generation of a type fails (a child of an unsupported kind) the
+   iterators of children generated before the failure STAY in the cache, with the captured
+   placeholder inside. *)
+
+(* A type as getDefaultIteratorForType sees it.  Type ids are positions in the environment. *)
+Inductive tdesc :=
+| TScalar                        (* a kind / type with a fixed iterator *)
+| TBad                           (* chan, func, complex, unsafe.Pointer, uintptr: "BUG: Unhandled type" (panic) *)
+| TIface                         (* interface: iterateInterface looks the dynamic type up while iterating *)
+| TComp (children : list nat).   (* pointer [elem], slice / array [elem], map [key; elem], struct [exported fields]:
+                                    the iterators of the children are looked up, in this order, during generation *)
+Definition tyenv := list tdesc.
+
+(* A value as the iterators walk it. *)
+Inductive vshape :=
+| VLeaf                                  (* scalar; nil pointer / slice / map / interface *)
+| VNode (kids : list (nat * vshape))     (* (position of the child type in [children], child value), in iteration
+                                            order: pointer [(0,elem)]; slice [(0,e1);(0,e2)..]; map [(0,k);(1,v)..];
+                                            struct: the fields that are not omitted (empty fields are) *)
+| VDyn (t : nat) (v : vshape).           (* interface holding a value of dynamic type t *)
+
+(* What a lookup returns: a generated iterator, or the placeholder of a type being generated. *)
+Inductive iref := RIter (i : nat) | RPh (p : nat).
+Inductive iter := IScalar | IIface | IComp (children : list iref).
+(* A placeholder: its WaitGroup not released; released with the generated iterator; released
+   with `func(..) { panic(err) }` (failed generation, since commit d2cf257). *)
+Inductive ph_state := PhPending | PhDone (i : nat) | PhDead.
+
+Record isession := { is_cache : list (nat * iref); is_iters : list iter; is_phs : list ph_state }.
+Definition isession_empty : isession := {| is_cache := []; is_iters := []; is_phs := [] |}.
+
+(* What the deferred function of GetIteratorForType does when generation failed. *)
+Record fail_policy := { fp_delete : bool;      (* iteratorFuncs.Delete(t) *)
+                        fp_release : bool }.   (* iterator = func{panic(err)}; wg.Done() *)
+Definition policy_current : fail_policy := {| fp_delete := true; fp_release := true |}.
+Definition policy_before_d2cf257 : fail_policy := {| fp_delete := false; fp_release := false |}.
+Definition policy_delete_only : fail_policy := {| fp_delete := true; fp_release := false |}.
+
+Fixpoint icache_find (c : list (nat * iref)) (t : nat) : option iref :=
+  match c with
+  | [] => None
+  | (t', r) :: rest => if Nat.eqb t t' then Some r else icache_find rest t
+  end.
+
+Fixpoint icache_remove (c : list (nat * iref)) (t : nat) : list (nat * iref) :=
+  match c with
+  | [] => []
+  | (t', r) :: rest => if Nat.eqb t t' then icache_remove rest t else (t', r) :: icache_remove rest t
+  end.
+
+Fixpoint upd {A} (n : nat) (x : A) (l : list A) : list A :=
+  match l, n with
+  | [], _ => []
+  | _ :: r, O => x :: r
+  | y :: r, S k => y :: upd k x r
+  end.
+
+Inductive bres := BRef (r : iref) | BPanic | BGiveUp.      (* BGiveUp: the model's fuel ran out / ill-formed input *)
+Inductive lres := LRefs (rs : list iref) | LPanic | LGiveUp.
+
+(* completed = true; wg.Done(); iteratorFuncs.Store(t, iterator) *)
+Definition ifinish (s : isession) (t p : nat) (it : iter) : isession * bres :=
+  let i := length (is_iters s) in
+  ({| is_cache := (t, RIter i) :: icache_remove (is_cache s) t;
+      is_iters := is_iters s ++ [it];
+      is_phs := upd p (PhDone i) (is_phs s) |}, BRef (RIter i)).
+
+Definition ifail (pol : fail_policy) (s : isession) (t p : nat) : isession * bres :=
+  ({| is_cache := if fp_delete pol then icache_remove (is_cache s) t else is_cache s;
+      is_iters := is_iters s;
+      is_phs := if fp_release pol then upd p PhDead (is_phs s) else is_phs s |}, BPanic).
+
+Fixpoint build_list (b : nat -> isession -> isession * bres) (ts : list nat) (s : isession) : isession * lres :=
+  match ts with
+  | [] => (s, LRefs [])
+  | t :: r =>
+      match b t s with
+      | (s1, BRef x) =>
+          match build_list b r s1 with
+          | (s2, LRefs xs) => (s2, LRefs (x :: xs))
+          | other => other
+          end
+      | (s1, BPanic) => (s1, LPanic)
+      | (s1, BGiveUp) => (s1, LGiveUp)
+      end
+  end.
+
+(* GetIteratorForType(t).  Fuel: nesting depth of generations in progress (each is a distinct
+   type of the environment, so [S (length env)] is enough; running out is reported as BGiveUp
+   and counts as a disagreement in the correspondence cases). *)
+Fixpoint ibuild (pol : fail_policy) (env : tyenv) (fuel : nat) (t : nat) (s : isession) : isession * bres :=
+  match icache_find (is_cache s) t with
+  | Some r => (s, BRef r)                       (* Load / LoadOrStore found something *)
+  | None =>
+      match fuel with
+      | O => (s, BGiveUp)
+      | S k =>
+          match nth_error env t with
+          | None => (s, BGiveUp)
+          | Some d =>
+              let p := length (is_phs s) in
+              let s1 := {| is_cache := (t, RPh p) :: is_cache s; is_iters := is_iters s;
+                           is_phs := is_phs s ++ [PhPending] |} in
+              match d with
+              | TScalar => ifinish s1 t p IScalar
+              | TIface => ifinish s1 t p IIface
+              | TBad => ifail pol s1 t p
+              | TComp ts =>
+                  match build_list (ibuild pol env k) ts s1 with
+                  | (s2, LRefs rs) => ifinish s2 t p (IComp rs)
+                  | (s2, LPanic) => ifail pol s2 t p
+                  | (s2, LGiveUp) => (s2, BGiveUp)
+                  end
+              end
+          end
+      end
+  end.
+
+Definition build_fuel (env : tyenv) : nat := S (length env).
+
+(* Calling what a lookup returned. *)
+Inductive resolved := RsIter (it : iter) | RsWait | RsDead | RsNone.
+Definition resolve (s : isession) (r : iref) : resolved :=
+  match r with
+  | RIter i => match nth_error (is_iters s) i with Some it => RsIter it | None => RsNone end
+  | RPh p =>
+      match nth_error (is_phs s) p with
+      | Some PhPending => RsWait            (* wg.Wait() in the only goroutine there is *)
+      | Some PhDead => RsDead               (* re-raises the error of the failed generation *)
+      | Some (PhDone i) => match nth_error (is_iters s) i with Some it => RsIter it | None => RsNone end
+      | None => RsNone
+      end
+  end.
+
+Inductive tres := TOk | TPanic | THang | TGiveUp.
+
+Fixpoint call_kids (callf : iref -> vshape -> isession -> isession * tres) (rs : list iref)
+         (kids : list (nat * vshape)) (s : isession) : isession * tres :=
+  match kids with
+  | [] => (s, TOk)
+  | (i, v) :: rest =>
+      match nth_error rs i with
+      | None => (s, TGiveUp)
+      | Some r =>
+          match callf r v s with
+          | (s1, TOk) => call_kids callf rs rest s1
+          | other => other
+          end
+      end
+  end.
+
+(* iterate(context, value).  Fuel: depth of the value (a finite tree: cyclic VALUES are the
+   business of [marshal_body]). *)
+Fixpoint icall (pol : fail_policy) (env : tyenv) (fuel : nat) (r : iref) (v : vshape) (s : isession) : isession * tres :=
+  match fuel with
+  | O => (s, TGiveUp)
+  | S k =>
+      match resolve s r with
+      | RsWait => (s, THang)
+      | RsDead => (s, TPanic)
+      | RsNone => (s, TGiveUp)
+      | RsIter it =>
+          match it, v with
+          | IScalar, VLeaf => (s, TOk)
+          | IIface, VLeaf => (s, TOk)
+          | IIface, VDyn t v' =>
+              match ibuild pol env (build_fuel env) t s with
+              | (s1, BRef r') => icall pol env k r' v' s1
+              | (s1, BPanic) => (s1, TPanic)
+              | (s1, BGiveUp) => (s1, TGiveUp)
+              end
+          | IComp _, VLeaf => (s, TOk)
+          | IComp rs, VNode kids => call_kids (icall pol env k) rs kids s
+          | _, _ => (s, TGiveUp)
+          end
+      end
+  end.
+
+(* Body of Marshaler.Marshal on a typed value: RootObjectIterator.Iterate.  [None]: the model gave up. *)
+Definition tmarshal_body (pol : fail_policy) (env : tyenv) (fuel : nat) (s : isession) (t : nat) (v : vshape)
+  : isession * option (outcome unit) :=
+  match ibuild pol env (build_fuel env) t s with
+  | (s1, BRef r) =>
+      match icall pol env fuel r v s1 with
+      | (s2, TOk) => (s2, Some (Ok tt))
+      | (s2, TPanic) => (s2, Some Panic)
+      | (s2, THang) => (s2, Some Hang)
+      | (s2, TGiveUp) => (s2, None)
+      end
+  | (s1, BPanic) => (s1, Some Panic)
+  | (s1, BGiveUp) => (s1, None)
+  end.
+
+(* Successive Marshal calls on one object (a fresh session per call for the one-shot functions).
+   A call that does not return is never followed by another one; neither is one the model gave up on. *)
+Fixpoint run_typed_session (pol : fail_policy) (e : entry_point) (env : tyenv) (fuel : nat) (s : isession)
+         (calls : list (nat * vshape)) : list (option (outcome unit)) :=
+  match calls with
+  | [] => []
+  | (t, v) :: r =>
+      let '(s', o) := tmarshal_body pol env fuel (if fresh_per_call e then isession_empty else s) t v in
+      match o with
+      | None => [None]
+      | Some o' =>
+          match run_chain e [] 0 (fun _ => o') with
+          | Hang => [Some Hang]
+          | w => Some w :: run_typed_session pol e env fuel s' r
+          end
+      end
+  end.
+
+Definition run_typed (pol : fail_policy) (e : entry_point) (env : tyenv) (fuel : nat) (calls : list (nat * vshape))
+  : list (option (outcome unit)) :=
+  run_typed_session pol e env fuel isession_empty calls.
+
+(* type T struct { Next *T; Ch chan int }: T = 0, *T = 1, chan int = 2.
+   [T{}] by value, then [&T{}]. *)
+Definition rec_env : tyenv := [TComp [1; 2]; TComp [0]; TBad]%nat.
+Definition rec_calls : list (nat * vshape) := [(0, VNode []); (1, VNode [(0, VNode [])])]%nat.
+
+(* ------------------------------------------------------------------------- *)
 (** * Byte-level model of a CBE fragment (decoder -> builder, validator off) *)
 
 (* cbe/decoder.go Decode + runMainDecodeLoop restricted to the type codes whose
@@ -718,9 +953,22 @@ Inductive entry_case :=
 | MarshalCase (e : entry_point) (supported cyclic : bool) (repeat : nat) (impl : cls)
 (* CBE fragment, validator off, destination interface{}; the harness only sends
    documents inside the fragment (the model answering None counts as a mismatch) *)
-| FragCase (e : entry_point) (doc : bytes) (impl : cls).
+| FragCase (e : entry_point) (doc : bytes) (impl : cls)
+(* marshal entry point, successive calls on one object with values described over a type graph
+   (the harness derives [env] and the value shapes from the Go types / values by reflection);
+   [impl]: the class of every call that was made (the sequence ends at a call that does not return) *)
+| TypedMarshalCase (e : entry_point) (env : tyenv) (calls : list (nat * vshape)) (impl : list cls).
 
 Definition last_outcome (l : list (outcome unit)) : outcome unit := last l Err.
+
+Fixpoint outs_match (outs : list (option (outcome unit))) (impl : list cls) : bool :=
+  match outs, impl with
+  | [], [] => true
+  | Some o :: r, c :: r' => cls_matches o c && outs_match r r'
+  | _, _ => false                     (* different number of calls, or the model gave up *)
+  end.
+
+Definition typed_case_fuel : nat := 64.
 
 Definition entry_case_ok (c : entry_case) : bool :=
   match c with
@@ -750,5 +998,10 @@ Definition entry_case_ok (c : entry_case) : bool :=
       match kind_of e, frag_unmarshal e doc with
       | KUnmarshal, Some o => cls_matches o impl
       | _, _ => false
+      end
+  | TypedMarshalCase e env calls impl =>
+      match kind_of e with
+      | KMarshal => outs_match (run_typed policy_current e env typed_case_fuel calls) impl
+      | _ => false
       end
   end.
